@@ -148,6 +148,24 @@ CHECKS["C08"] = dict(
     note=("Trusted/assumed: as the other checks; additionally the sharing-related half of the property rests on the executed checks "
           "of py/c08.py over generated files, not on a theorem."))
 
+CHECKS["C17"] = dict(
+    text=("Theorems over the model of read_ampgen / expand_lines on the transformed option file: the expansion of a line is exactly "
+          "the set of its complete decay lines (sound and complete w.r.t. an inductive specification), their number is the "
+          "product/sum formula, every amplitude keeps the root of its line (name, particle, tags, coupling, fixedness); coupling is "
+          "(magnitude, phase) or (re, im) under the cartesian option; tables have one row per parameter/constant line; the "
+          "coherent-sum option is read and selects the coupling mode. Unbounded. PARTIAL: the AmpGen lexer/parser is not modelled "
+          "(texts rendered by the harness); fuzzy particle-name lookup is regenerated data; exp/cos/sin compared numerically."),
+    design="DESIGN.md §5 C17",
+    technique="Coq proof (fuel induction, cartesian-product lemmas) + differential correspondence through AmplitudeChain.read_ampgen")
+CHECKS["C18"] = dict(
+    text=("Theorems: list_structure returns exactly the injective assignments sigma with fs[sigma i] = st[i], each once (any number of "
+          "particles, any multiplicities), and raises iff a particle is missing from the event type; the structured output of "
+          "to_goofit contains per permutation the spin factor(s) with that permutation and one lineshape per vertex with mass "
+          "names from the same permutation, and declares the number of permutations. Tie: sampled/exhaustive permutation space; "
+          "generated four-body files through both GooFitChain and GooFitPyChain with the emitted text parsed back."),
+    design="DESIGN.md §5 C18",
+    technique="Coq proof (product/filter characterisation; structural unfolding of the emitter model) + differential correspondence on parsed generated code")
+
 NOT_YET = {
 }
 
